@@ -264,7 +264,14 @@ impl Distrib for Uniform<f32> {
         // Leaves a lot of precision unused near zero, but it's okay.
         let (exp, mantissa) = (127 << 23, rng.next_bits() >> 41);
         let unit = f32::from_bits(exp | mantissa as u32) - 1.0;
-        unit * (end - start) + start
+        let x = unit * (end - start) + start;
+        // Rounding may yield exactly `end` if the range is narrow compared
+        // to the magnitude of its bounds; keep the range half-open
+        if x < end {
+            x
+        } else {
+            end.next_down().max(start)
+        }
     }
 }
 
